@@ -52,6 +52,7 @@ import (
 	"os"
 	"runtime"
 	"slices"
+	"strings"
 
 	"golang.org/x/tools/go/ssa"
 
@@ -86,6 +87,14 @@ const (
 
 type methodSet map[string]*ssa.Function
 
+type fnInfo struct {
+	name      string
+	ext       externalFn
+	summarize bool
+	handler   handler
+	resolved  bool
+}
+
 // State shared between all interpreted goroutines.
 type interpreter struct {
 	osArgs             []value                // the value of os.Args
@@ -113,6 +122,8 @@ type interpreter struct {
 	funcSteps map[*ssa.Function]int
 	now     int // counter for the time.Now stub
 	cur     *frame
+	inSummary int
+	fnCache map[*ssa.Function]*fnInfo
 }
 
 type deferred struct {
@@ -519,18 +530,24 @@ func callSSA(i *interpreter, caller *frame, callpos token.Pos, fn *ssa.Function,
 		fn:     fn,
 	}
 	if fn.Parent() == nil {
-		name := fn.String()
-		if h := i.intercept(fn, name); h != nil {
+		info := i.fnCache[fn]
+		if info == nil {
+			name := fn.String()
+			info = &fnInfo{name: name, ext: externals[name], summarize: i.sh.Summarize[name]}
+			i.fnCache[fn] = info
+		}
+		// package initialisers depend on per-path state, so they are not cached
+		if h := i.intercept(fn, info); h != nil {
 			return h(fr, args)
 		}
-		if ext := externals[name]; ext != nil {
-			if i.mode&EnableTracing != 0 {
-				fmt.Fprintln(os.Stderr, "\t(external)")
-			}
-			return ext(fr, args)
+		if info.summarize && i.inSummary == 0 {
+			return i.summarize(fr, fn, args)
+		}
+		if info.ext != nil {
+			return info.ext(fr, args)
 		}
 		if fn.Blocks == nil {
-			panic(unsupported("no code for function: " + name))
+			panic(unsupported("no code for function: " + info.name))
 		}
 	}
 
@@ -594,6 +611,13 @@ func runFrame(fr *frame) {
 		p := recover()
 		if engineControl(p) {
 			panic(p)
+		}
+		if re, ok := p.(runtime.Error); ok && strings.Contains(re.Error(), "symex.") {
+			// a failed type assertion on the engine's own value types is an
+			// engine limitation, never a target panic
+			buf := make([]byte, 4096)
+			n := runtime.Stack(buf, false)
+			panic(unsupported("engine: " + re.Error() + " in " + fr.fn.String() + "\n" + string(buf[:n])))
 		}
 		if re, ok := p.(runtime.Error); ok {
 			// A Go runtime error inside the interpreter stands for the same
